@@ -38,5 +38,6 @@ PairOK(e) ==
 LineOK == LET e == Trace[l] IN
           CASE e.op = "call" -> CallOK(e)
             [] e.op = "pair" -> PairOK(e)
+            [] e.op = "panic" -> Chk(FALSE, "quorum_function_panicked")   \* the functions are total on every committee and id list
             [] OTHER -> Chk(FALSE, "unknown_op")
 =============================================================================
